@@ -8,7 +8,15 @@ checks, na = [], []
 for p in props:
     pid = p['id']
     if pid in R.CLAIMS:
-        c = R.CLAIMS[pid]
+        c = dict(R.CLAIMS[pid])
+        # the rule ids actually evaluated by the last run of the check (texts: evidence file, DESIGN.md §9)
+        try:
+            ev = json.load(open(os.path.join(VERIF, 'evidence', pid + '.json')))
+            ids = [r.split(':')[0].strip() for r in ev['coverage']['rule'].split(' || ') if ':' in r]
+            if ids:
+                c['text'] = c['text'].rstrip() + ' Rules evaluated on every run (their statements are in the evidence file and in DESIGN.md §9): ' + ', '.join(ids) + '.'
+        except (OSError, KeyError, ValueError):
+            pass
         checks.append({
             'property_id': pid,
             'quick_cmd': './check %s --tier quick' % pid,
